@@ -13,7 +13,7 @@ import tempfile
 from fractions import Fraction
 
 from .. import common
-from ..common import rat
+from ..common import rat, unrat
 
 PROP = "C20"
 RULE = ("random call histories (8-22 calls) on a shared pool of circuits / Pauli terms and sums / measurement sets / "
@@ -557,7 +557,40 @@ def _diff(before, after):
     return [i for i, (x, y) in enumerate(zip(before, after)) if x != y]
 
 
+def _run_evalframe(case):
+    """evaluating a circuit (operation-by-operation apply, and the bundled simulator with an explicit initial state)
+    must not modify the state vector it is given; the same evaluation twice gives the same result"""
+    import numpy as np
+    from .. import circ
+    common.use_repo()
+    import orquestra.quantum.circuits as oqc
+    from orquestra.quantum.runners.symbolic_simulator import SymbolicSimulator
+    ops = []
+    for o in case["ops"]:
+        if "mphase" in o:
+            ops.append(oqc.MultiPhaseOperation(tuple(circ.theta_of(a) for a in o["mphase"])))
+        else:
+            ops.append(circ.build_gate(o["g"])(*o["qs"]))
+    c = oqc.Circuit(ops, n_qubits=case["n"])
+    v0 = np.array([complex(float(unrat(a)), float(unrat(b))) for a, b in case["v"]], dtype=case.get("dtype", "complex128"))
+    out = {"evalframe": True}
+    v = v0.copy()
+    r1 = SymbolicSimulator().get_wavefunction(c, initial_state=v).amplitudes.copy()
+    out["sim_arg_intact"] = bool(np.array_equal(v, v0))
+    r2 = SymbolicSimulator().get_wavefunction(c, initial_state=v).amplitudes
+    out["sim_repeatable"] = bool(np.allclose(r1, r2, atol=1e-12))
+    v = v0.copy()
+    for i, op in enumerate(ops):
+        w = op.apply(v)
+        if not np.array_equal(v, v0):
+            out["apply_mutates"] = i
+            break
+    return out
+
+
 def run_impl(case):
+    if case.get("kind") == "evalframe":
+        return _run_evalframe(case)
     L = _lib()
     pool, steps = [], []
     with tempfile.TemporaryDirectory(prefix="c20_") as tmpdir:
@@ -622,7 +655,7 @@ def run_impl(case):
 # ------------------------------------------------------------------ model side
 def requests(case, out):
     if "steps" not in out:
-        return []
+        return []  # evalframe cases are judged by the snapshot oracle only
     calls = []
     for call, st in zip(case["calls"], out["steps"]):
         c = {k: v for k, v in call.items() if k not in ("seed", "left", "measure", "bessel")}
@@ -670,6 +703,14 @@ def compare(case, out, resp):
 
 # ------------------------------------------------------------------ oracle (implementation only)
 def oracle(case, out):
+    if isinstance(out, dict) and out.get("evalframe"):
+        if not out["sim_arg_intact"]:
+            return ("mutates:evaluate_circuit", "SymbolicSimulator.get_wavefunction(circuit, initial_state=v) modified v")
+        if not out["sim_repeatable"]:
+            return ("unrepeatable:evaluate_circuit", "evaluating the same circuit twice on the same initial state gave different states")
+        if "apply_mutates" in out:
+            return ("mutates:operation_apply", f"operation #{out['apply_mutates']}.apply(v) modified the vector v it was given")
+        return None
     if "steps" not in out:
         return ("harness-raise", f"the history could not be run: {out}")
     for i, st in enumerate(out["steps"]):
@@ -690,6 +731,8 @@ def oracle(case, out):
 
 
 def nontrivial(case):
+    if case.get("kind") == "evalframe":
+        return len(case["ops"]) >= 2
     uses = {}
     n = 0
     for c in case["calls"]:
@@ -1207,10 +1250,30 @@ def _history(rng, big, family, malformed=False):
     return {"kind": family + ("-malformed" if malformed else ""), "calls": g.calls}
 
 
+def _evalframe_case(rng):
+    from .. import circ
+    n = rng.randrange(1, 4)
+    ops = []
+    for _ in range(rng.randrange(1, 5)):
+        if rng.random() < 0.45:
+            ops.append({"mphase": [circ.rat_angle(rng) for _ in range(2 ** n)]})
+        else:
+            ops.append(circ.random_op(rng, n, custom_prob=0.0))
+    if rng.random() < 0.5:
+        ops.insert(0, {"mphase": [circ.rat_angle(rng) for _ in range(2 ** n)]})
+    v = [[0, 0] for _ in range(2 ** n)]
+    i, j = rng.randrange(2 ** n), rng.randrange(2 ** n)
+    if i == j:
+        v[i] = [0, 1]
+    else:
+        v[i], v[j] = ["3/5", 0], [0, "4/5"]
+    return {"kind": "evalframe", "n": n, "ops": ops, "v": v}
+
+
 def generate(rng, tier):
     big = tier == "thorough"
     n = 6000 if big else 420
-    cases = []
+    cases = [_evalframe_case(rng) for _ in range(200 if big else 30)]
     fams = ["circuit", "pauli", "meas", "dist", "wf", "mixed"]
     for i in range(n):
         cases.append(_history(rng, big, fams[i % len(fams)]))
